@@ -5,7 +5,7 @@
    are exactly the values Spec/Wire.v defines for those bytes, and FindTransaction stops at the
    first transaction its predicate selects. *)
 From BS Require Import Impl.Visit Impl.Access Ref.MetaDefs Proofs.ImplRefLeaf Proofs.ImplRefTx Proofs.Transfer Proofs.Entries
-  Proofs.SpecLemmas Proofs.RefSpec Proofs.SpecTransfer Proofs.ObjSpec Proofs.Interop Proofs.Examples.
+  Proofs.SpecLemmas Proofs.RefSpec Proofs.SpecTransfer Proofs.ObjSpec Proofs.Interop Proofs.FindSpec Proofs.Examples.
 Open Scope N_scope.
 
 (* Into<bitcoin::TxOut>: (amount, script without its length prefix) of the wire structure; the
@@ -44,6 +44,42 @@ Theorem C19_first_match_characterised : forall m d l, upto_first m d = Some l ->
 Proof. exact upto_first_spec. Qed.
 Theorem C19_no_match_characterised : forall m d, upto_first m d = None -> forall x, In x d -> is_tx x && m x = false.
 Proof. exact upto_first_none. Qed.
+
+(* ---- FindTransaction made concrete: SHA-256 is inside the model (Base/Sha256.v), the visitor's predicate is
+   "the double SHA-256 of the three preimage windows, read from the input, equals the wanted id"
+   ([find_oracle], Impl/Access.v), and [find_transaction] is Block::visit with it followed by tx_found().
+   [has_id id t] : the double SHA-256 of the witness-stripped serialization of t is id. ---- *)
+
+(* the search finds a transaction iff the block contains one with that id, returns the FIRST such transaction
+   (List.find) - exactly its serialized bytes, which the crate hands to rust-bitcoin's decoder - and reports
+   VisitBreak; otherwise the whole block is visited and nothing is returned *)
+Theorem C19_find_transaction_by_txid : forall a rest id, wf_block a -> InLen (enc_block a ++ rest) ->
+  let b := enc_block a ++ rest in
+  match find (has_id id) (ab_txs a) with
+  | Some t => find_transaction b id = (Err VisitBreak, Some (enc_tx t))
+  | None => exists pr, find_transaction b id = (Ok pr, None) /\ bytes (remaining pr) = rest
+  end.
+Proof. exact find_transaction_spec. Qed.
+
+(* ... and stops the visit at it: the callbacks delivered are the traversal of the block up to and including the
+   callback of that transaction, no transaction before it has the id *)
+Theorem C19_find_transaction_stops_at_first : forall a rest id t, wf_block a -> InLen (enc_block a ++ rest) ->
+  let b := enc_block a ++ rest in
+  find (has_id id) (ab_txs a) = Some t ->
+  exists before after q l post,
+    ab_txs a = before ++ t :: after /\ forallb (fun x => negb (has_id id x)) before = true /\ has_id id t = true /\
+    trav_block 0 a = l ++ ev_tx q t :: post /\
+    visit_block (find_oracle b id) (top b) [] = (Err VisitBreak, rev (l ++ [ev_tx q t])).
+Proof. exact find_transaction_trace. Qed.
+
+Theorem C19_has_id_is_txid_equality : forall id t, has_id id t = true <-> sha256d (enc_stripped t) = id.
+Proof. intros id t. unfold has_id. apply bytes_eqb_eq. Qed.
+
+(* non-vacuity: the three-transaction example block searched for the id of its second transaction *)
+Example C19_find_example :
+  find_transaction (ex_block_bytes ++ ex_trailing) (sha256d (enc_stripped ex_tx_segwit)) = (Err VisitBreak, Some (enc_tx ex_tx_segwit)) /\
+  snd (find_transaction (ex_block_bytes ++ ex_trailing) (sha256d (enc_tx ex_tx_segwit))) = None.
+Proof. split; vm_compute; reflexivity. Qed.
 
 (* non-vacuity: an output and an outpoint parsed at a non-zero offset with trailing bytes, converted *)
 Example C19_example :
